@@ -57,6 +57,8 @@ def run_one(check_id, shard, tmp, idx):
         env.pop(k, None)
     env.update(shard.get("env", {}))
     timeout = shard.get("timeout", 900)
+    if shard.get("tier") == "quick":
+        timeout = min(timeout, 1500)   # a quick shard takes about a minute; the watchdog's firing is INCONCLUSIVE, never a violation
     t0 = time.time()
     try:
         p = subprocess.run(
